@@ -627,7 +627,7 @@ pub fn run(ctx: &Ctx) -> i32 {
     });
     let ev = Evidence {
         level: "exploration",
-        rule: "One case = one script pair: an adversarial prefix (0-3 games, clock-limited searches interrupted at seeded reads, depth-limited searches, with/without ucinewgame, standard commands the engine ignores such as stop/ponderhit/setoption at seeded places; one game in four has a history with planted repetitions) and a depth-limited suffix (1-2 games, depth 1..4, sometimes a go before any position command, in one case of four the game of the prefix continued after ucinewgame with the same start and move list; one case in forty is a depth 5-6 search of several hundred thousand nodes, half of them followed by three more depth-5 searches along the same game without ucinewgame; one case per 1300 runs two depth-7 searches in one game (millions of nodes, a table of more than 10^5 entries)). Runs: prefix+ucinewgame+suffix under three key seeds (transcripts of info/bestmove lines minus time/nps must be identical; the whole transcript when the prefix has no clocked go, else the part after ucinewgame), the same under the first key set with a clock a million times slower (1 ms of virtual time per node; depth-limited output must not notice), and the suffix alone in a fresh process (must equal the part after ucinewgame). Prefixes also contain budgets that are gone at once (go movetime 0, clocks below the reserve). One case in eight is also run twice on the real binary (two real key draws) and compared with the simulation. Evaluations = simulated processes; all cases are non-trivial (each contains at least one search).".into(),
+        rule: "One case = one script pair: an adversarial prefix (0-3 games, clock-limited searches interrupted at seeded reads, depth-limited searches, with/without ucinewgame, standard commands the engine ignores such as stop/ponderhit/setoption at seeded places; one game in four has a history with planted repetitions) and a depth-limited suffix (1-2 games, depth 1..4, sometimes a go before any position command, in one case of four the game of the prefix continued after ucinewgame with the same start and move list; one case in forty is a depth 5-6 search of several hundred thousand nodes, half of them followed by three more depth-5 searches along the same game without ucinewgame; one case per 1300 runs two depth-7 searches in one game (millions of nodes, a table of more than 10^5 entries)). Runs: prefix+ucinewgame+suffix under three key seeds (transcripts of info/bestmove lines minus time/nps must be identical; the whole transcript when the prefix has no clocked go, else the part after ucinewgame), the same under the first key set with a clock a million times slower (1 ms of virtual time per node; depth-limited output must not notice), and the suffix alone in a fresh process (must equal the part after ucinewgame). Prefixes also contain budgets that are gone at once (go movetime 0, clocks below the reserve). One case in eight is also run twice on the real binary (two real key draws) and compared with the simulation. Evaluations = simulated processes; all cases are non-trivial (each contains at least one search). The huge scenario (two depth-7 searches) and one giant scenario per quick batch (ten depth-7 searches of quiet openings, ~700 000 distinct positions cached) come after a second ucinewgame whose first game was large, and are compared with a fresh process (the huge one also with two real-binary runs); one prefix in twelve sets positions up without searching and the suffix starts with a go without position; one suffix in fifteen has a position line of 1-3.5 KB.".into(),
         extra: {
             let mut m = serde_json::Map::new();
             m.insert("real_binary_available".into(), json!(real_bin.is_some()));
